@@ -10,8 +10,8 @@
      driven f n p i q        the step-wise scalar reference: n times { w := next(q); p.param := w; v := next(p) };
      outputs f n p           the outcomes of the next n calls of next(p) and the object afterwards;
      f is the recursion fuel of the model, binop the operator semantics (arbitrary). *)
-From Isobar Require Import Base.Prelude Pat.Val Pat.Syntax Pat.Step Pat.StepProofs Pat.Script Pat.Param Pat.ParamProofs Pat.ParamMore.
-From Coq Require Import String QArith.
+From Isobar Require Import Base.Prelude Pat.Val Pat.Syntax Pat.Step Pat.StepProofs Pat.Script Pat.Param Pat.ParamProofs Pat.ParamMore Pat.ParamLive Pat.ParamLiveProofs.
+From Coq Require Import String QArith Permutation.
 Open Scope Z_scope.
 
 Section AnyOperators.
@@ -191,3 +191,115 @@ Example C12_pdict_forms_nonvacuous :
   /\ fst (outputs Val.binop 10 6 3 (pdict_of ["note"; "amp"]%string rows)) =
      [Yield (VDict [("note", VInt 60); ("amp", VInt 64)]%string); Yield (VDict [("note", VInt 67); ("amp", VInt 32)]%string); Stop].
 Proof. vm_compute. auto. Qed.
+
+(** ** (4') the list-of-dicts form reads every row BY KEY *)
+(* [reordered rows rows'] (Pat/ParamLiveProofs.v): rows' are the same dicts with their entries in other insertion orders
+   (each a permutation of the corresponding row, keys distinct - equal as Python dicts).  For ALL key sets, lengths and
+   orders, PDict([row0] + rows') builds the object of the rows in the first row's key order, i.e. (C12_pdict_forms) the object
+   of the dict of one-shot sequences: the insertion order of a later dict's keys cannot move a value to another column *)
+Section KeyOrder.
+  Variable binop : op -> val -> val -> outcome val.
+  Variable LMAX : nat.
+  Theorem C12_pdict_rows_key_order : forall f row0 rows rows',
+    (forall k r, In k (map fst row0) -> In r (row0 :: rows') -> has_key k r) ->
+    reordered rows rows' ->
+    construct binop LMAX (S f) CDict [AL (map row_arg (row0 :: rows'))] = Yield (pdict_of (map fst row0) (row0 :: rows)).
+  Proof. exact (pdict_rows_any_key_order binop LMAX). Qed.
+End KeyOrder.
+Theorem C12_pdict_key_order : forall ks row0 rows rows', reordered rows rows' -> pdict_of ks (row0 :: rows') = pdict_of ks (row0 :: rows).
+Proof. exact pdict_key_order. Qed.
+
+(** ** (5') re-targeting a reference that sits in the event dict of a RUNNING TRACK (Pat/ParamLive.v) *)
+(* A timeline is a list of tracks, each with its name and the event stream it draws from; a history is a list of
+   LSchedule name s (a fresh track, or - name given and a track of that name running - that track now plays s),
+   LUpdate t s (Track.update), LStep t (the track's next event) and LRetarget t k path r (set_pattern(r) on the reference
+   at key k / parameter path of what track t plays).  [tl] below is ANY state, i.e. the state after any history. *)
+Section LiveOperators.
+  Variable binop : op -> val -> val -> outcome val.
+  Variable LMAX : nat.
+
+  (* the very next event of the track carries the new target's next value under k - every other key its own next value -
+     and the reference then holds the new target advanced by that one step *)
+  Theorem C12_live_retarget : forall f tl t nm kv1 k old kv2 r w r' vs1 kv1' vs2 kv2',
+    nth_error tl t = Some (mkLT nm (PDict (AD (kv1 ++ (k, AP (PRef old)) :: kv2)))) ->
+    ~ In k (map fst kv1) ->
+    kwvalues_of (value binop LMAX (S (S (S f)))) kv1 = (Yield vs1, kv1') ->
+    step binop LMAX f r = (Yield w, r') ->
+    kwvalues_of (value binop LMAX (S (S (S f)))) kv2 = (Yield vs2, kv2') ->
+    lexec binop LMAX (S (S (S (S f)))) (fst (lexec binop LMAX (S (S (S (S f)))) tl (LRetarget t k [] r))) (LStep t) =
+      (lset t (PDict (AD (kv1' ++ (k, AP (PRef (AP r'))) :: kv2'))) tl, Some (Yield (VDict (vs1 ++ (k, w) :: vs2)))).
+  Proof. exact (live_retarget_event binop LMAX). Qed.
+
+  (* ... also when the reference is a parameter of the pattern under the key ("note": PRef(...) + 12) *)
+  Theorem C12_live_param_retarget : forall f tl t nm kv1 k p i old kv2 r w r' v p1 vs1 kv1' vs2 kv2',
+    nth_error tl t = Some (mkLT nm (PDict (AD (kv1 ++ (k, AP p) :: kv2)))) ->
+    ~ In k (map fst kv1) ->
+    vfield p i = Some (AP (PRef old)) ->
+    kwvalues_of (value binop LMAX (S (S (S (S (S f)))))) kv1 = (Yield vs1, kv1') ->
+    step binop LMAX f r = (Yield w, r') ->
+    step binop LMAX (S (S (S (S f)))) (with_vfield p i (AV w)) = (Yield v, p1) ->
+    kwvalues_of (value binop LMAX (S (S (S (S (S f)))))) kv2 = (Yield vs2, kv2') ->
+    lexec binop LMAX (S (S (S (S (S (S f)))))) (fst (lexec binop LMAX (S (S (S (S (S (S f)))))) tl (LRetarget t k [i] r))) (LStep t) =
+      (lset t (PDict (AD (kv1' ++ (k, AP (with_vfield p1 i (AP (PRef (AP r'))))) :: kv2'))) tl,
+       Some (Yield (VDict (vs1 ++ (k, v) :: vs2)))).
+  Proof. exact (live_param_retarget_event binop LMAX). Qed.
+
+  (* the three ways a track comes to play the caller's event dict s - the tree s itself, so that the caller's place
+     (key, path) addresses the reference the track evaluates: *)
+  Theorem C12_live_fresh_installs : forall f tl name s,
+    match name with Some nm => lfind nm tl 0 | None => None end = None ->
+    lexec binop LMAX f tl (LSchedule name s) = (tl ++ [mkLT name s], None)
+    /\ nth_error (tl ++ [mkLT name s]) (List.length tl) = Some (mkLT name s).
+  Proof. exact (live_fresh_installs binop LMAX). Qed.
+  Theorem C12_live_update_installs : forall f tl t s tr, nth_error tl t = Some tr ->
+    let tl' := fst (lexec binop LMAX f tl (LUpdate t s)) in
+    nth_error tl' t = Some (mkLT (lt_name tr) s) /\ List.length tl' = List.length tl
+    /\ forall t', t' <> t -> nth_error tl' t' = nth_error tl t'.
+  Proof. exact (live_update_installs binop LMAX). Qed.
+  Theorem C12_live_replace_installs : forall f tl nm s i, lfind nm tl 0 = Some i ->
+    let tl' := fst (lexec binop LMAX f tl (LSchedule (Some nm) s)) in
+    nth_error tl' i = Some (mkLT (Some nm) s) /\ List.length tl' = List.length tl
+    /\ forall t', t' <> i -> nth_error tl' t' = nth_error tl t'.
+  Proof. exact (live_replace_installs binop LMAX). Qed.
+
+  (* and however many events the track has drawn since, the reference is still under its key in what the track plays:
+     the hypothesis of C12_live_retarget holds at every later moment *)
+  Theorem C12_live_ref_survives : forall f tl t nm s k n, nth_error tl t = Some (mkLT nm s) -> ref_at k s ->
+    exists s', nth_error (lrun_state binop LMAX f tl (repeat (LStep t) n)) t = Some (mkLT nm s') /\ ref_at k s'.
+  Proof. exact (live_ref_survives binop LMAX). Qed.
+End LiveOperators.
+
+Print Assumptions C12_pdict_rows_key_order.
+Print Assumptions C12_live_retarget.
+Print Assumptions C12_live_param_retarget.
+Print Assumptions C12_live_ref_survives.
+
+(* rows with the keys of the later dicts in other orders *)
+Example C12_pdict_key_order_nonvacuous :
+  let rows  := [[("amp", VInt 32); ("note", VInt 67)]; [("note", VInt 72); ("amp", VInt 100)]]%string in
+  let rows' := [[("note", VInt 67); ("amp", VInt 32)]; [("amp", VInt 100); ("note", VInt 72)]]%string in
+  let row0 := [("note", VInt 60); ("amp", VInt 64)]%string in
+  reordered rows rows'
+  /\ fst (outputs Val.binop 10 6 4 (pdict_of ["note"; "amp"]%string (row0 :: rows'))) =
+     [Yield (VDict [("note", VInt 60); ("amp", VInt 64)]%string); Yield (VDict [("note", VInt 67); ("amp", VInt 32)]%string);
+      Yield (VDict [("note", VInt 72); ("amp", VInt 100)]%string); Stop].
+Proof.
+  split; [|vm_compute; reflexivity].
+  repeat constructor; simpl; try (intros [X|X]; [discriminate X|exact X]); try (intros X; exact X).
+Qed.
+
+(* the history of seeded/C12-f/demo.py: track "lead" (name 1) plays 48; its events are replaced BY NAME with a dict whose
+   note and amplitude are references (60 / 64); the note reference is re-targeted at 72, 73, ...; then the amplitude *)
+Definition lv_series (a : Z) : pat := PSeries (VInt a) (VInt a) (AV (VInt 1)) (AV (VInt 1000)) 0.
+Definition lv_dict (n a : arg) : pat := PDict (AD [("note", n); ("amplitude", a)]%string).
+Definition lv_h : list lop :=
+  [ LSchedule (Some 1) (lv_dict (AP (PConstant (VInt 48))) (AP (PConstant (VInt 50)))); LStep 0; LStep 0;
+    LSchedule (Some 1) (lv_dict (AP (PRef (AP (PConstant (VInt 60))))) (AP (PRef (AP (PConstant (VInt 64)))))); LStep 0; LStep 0;
+    LRetarget 0 "note" [] (lv_series 72); LStep 0; LStep 0;
+    LRetarget 0 "amplitude" [] (PConstant (VInt 100)); LStep 0; LStep 0 ]%string.
+Example C12_live_nonvacuous :
+  map (played) (lrun Val.binop 10 8 [] lv_h) =
+    map (fun na => Yield (VTup [VInt (fst na); VInt (snd na)])) [(48, 50); (48, 50); (60, 64); (60, 64); (72, 64); (73, 64); (74, 100); (75, 100)]
+  /\ List.length (lrun_state Val.binop 10 8 [] lv_h) = 1%nat
+  /\ lfind 1 (lrun_state Val.binop 10 8 [] (firstn 3 lv_h)) 0 = Some 0%nat.
+Proof. vm_compute. repeat split. Qed.
